@@ -201,11 +201,52 @@ PID_RULE = {
 }
 
 
+def design_level(chk, pid, thorough):
+    """model checking of the embedding property on the specification itself + binding of the DEBUG model"""
+    from . import lattice, absm
+    sx = '_T' if thorough else ''
+    if pid in ('C10', 'C16'):
+        r = run_tlc('LatticeMC', 'LatticeMC_C10' + sx + '.cfg', workers=16, timeout=3000, seed=chk.seed + 1)
+        chk.tlc(r, 'LatticeMC C10order: reversing every neighbour list leaves the canonical result unchanged (design level)')
+        if r.invariant_violated:
+            raise common.MachineryError('design-level violation of listing-order invariance: ' + r.tail[-2500:])
+        return []
+    if pid != 'C19':
+        return []
+    r = run_tlc('LatticeMC', 'LatticeMC_C19' + sx + '.cfg', workers=16, timeout=3000, seed=chk.seed + 1)
+    chk.tlc(r, 'LatticeMC C19scoped: DEBUG is neutral without non-emitting states and without exact ties (design level)')
+    if r.invariant_violated:
+        raise common.MachineryError('design-level violation of C19scoped: ' + r.tail[-2500:])
+    rx = run_tlc('LatticeMC', 'LatticeMC_C19x' + sx + '.cfg', workers=16, timeout=3000, seed=chk.seed + 1, allow_violation=True)
+    chk.tlc(rx, 'LatticeMC C19all (expected to fail): TLC reproduces the recorded findings on the specification')
+    chk.cov['design_level_counterexample_to_unrestricted_C19'] = bool(rx.invariant_violated)
+    # binding of the DEBUG model: TLC-enumerated behaviours with debug = TRUE replayed on the real BaseMatcher at DEBUG
+    beh = lattice.behaviours_from_tlc(chk, 'LatticeMC_C19e' + sx + '.cfg', chk.seed + 1)
+    runs, groups = [], []
+    for i, (inst, cf0, ops, hist) in enumerate(beh):
+        cf0 = dict(cf0, labels=['id', 'zero', 'str'][i % 3])
+        rd = lattice.record_abs(i + 1, inst, dict(cf0, debug=True), ops, False, ())
+        r0 = lattice.record_abs(i + 1, inst, dict(cf0, debug=False), ops, False, ())
+        runs.append(rd)
+        e0, ed = r0['events'][-1], rd['events'][-1]
+        g = {'gid': 500000 + i, 'inst': {}, 'cf': cf0, 'ops': [list(o) for o in ops], 'check_robust': False, 'obs4': [], 'edges4': [],
+             'runs': [obs_of(e0, 'default-logging'), obs_of(ed, 'DEBUG-logging', tol=0, exact=True)]}
+        g['runs'][-1]['latdiff'] = classify_debug_diff(e0['lat'], ed['lat'])
+        groups.append(g)
+    v = lattice.validate(chk, runs, {'DRIFT'}, 'C19_debug_model')
+    for run_ in runs:
+        for x in v[run_['tid']].get('DRIFT', []):
+            chk.spec_drift(f'DEBUG model, run {run_["tid"]}: {x["clause"]} at event {x["at"]}')
+    chk.count('debug-model-binding', evaluations=len(runs), nontrivial=sum(1 for x in runs if any(e['stop'] for col in x['events'][-1]['lat'] for L in col for e in L)), traces=len(runs))
+    return groups
+
+
 def run(chk):
     pid, thorough = chk.pid, chk.tier == 'thorough'
     rng = random.Random(chk.seed * 15485863 + int(pid[1:]))
+    extra_groups = design_level(chk, pid, thorough)
     n = {'C10': (260, 1500), 'C16': (300, 2000), 'C17': (700, 5000), 'C19': (900, 6000), 'C15': (300, 2000), 'C12': (300, 2500)}[pid][thorough]
-    groups = make_groups(chk, pid, rng, n, thorough)
+    groups = make_groups(chk, pid, rng, n, thorough) + extra_groups
     verdicts = validate(chk, pid, groups, pid)
     nontriv = 0
     for g in groups:
